@@ -24,7 +24,62 @@ P, H, CA = nx.P, nx.H, nx.CA
 MAX_REGISTRY = 48
 
 
+_POISON = [0]
+
+
+def poison_heap():
+    """
+    Part of the 'history': small blocks freed earlier in the process are what np.empty() hands out next.  Filling them with a
+    pattern that changes from call to call turns a read of uninitialised memory into a visible dependence on the history.
+    """
+    import numpy as np
+
+    _POISON[0] = (_POISON[0] * 37 + 101) % 256
+    pat = _POISON[0]
+    for dtype in (np.uint8, np.int32, np.int64):
+        blocks = [np.full(size, pat, dtype=dtype) for size in range(1, 25) for _ in range(8)]
+        del blocks
+
+
+class _PoisonedNumpy:
+    """
+    Stands for the numpy module inside the interpreted engine: empty() hands out memory filled with the current garbage byte
+    instead of whatever the allocator left there, so that every read of uninitialised memory depends on the position in the history.
+    """
+
+    def __init__(self, real):
+        self.__dict__["_real"] = real
+
+    def __getattr__(self, name):
+        return getattr(self._real, name)
+
+    def empty(self, shape, dtype=float, **kw):
+        a = self._real.empty(shape, dtype=dtype, **kw)
+        if a.size:
+            if a.dtype == self._real.bool_:
+                a[...] = bool(_POISON[0] & 1)
+            else:
+                a.reshape(-1).view(self._real.uint8)[:] = _POISON[0]
+        return a
+
+
+def install_numpy_poison():
+    """Mode I only (the compiled engine resolves np at compile time)."""
+    if not nx.INTERPRETED:
+        return 0
+    import numpy as np
+
+    n = 0
+    for name, mod in list(sys.modules.items()):
+        if name.startswith("nucs.") and getattr(mod, "np", None) is np:
+            mod.np = _PoisonedNumpy(np)
+            n += 1
+    return n
+
+
 def _solve(pb, pc, cfg, how, idx_override=None):
+    poison_heap()
+    install_numpy_poison()
     kw = {}
     if idx_override:
         kw = idx_override
